@@ -44,7 +44,7 @@ Inductive perr :=
 | EBadOptionArg | EMissingSize | EBadType | EOutOfBounds | EExpectedOption
 | EBadAlignment | EUnexpectedPackEnd | EDoesNotFit | EStringLongerThanFormat
 | EStringDoesNotFit | EVariableLength | EOverflow | EStringContainsZeros
-| EBadFormat (c : Z) | ENotEnoughValues | EEOF | EUnmodelled.
+| EBadFormat (c : Z) | ENotEnoughValues | EEOF | EUnmodelled | EResultTooLarge.
 
 Inductive value := VInt (n : Z) | VFlt (bits : Z) | VStr (s : list Z) | VNil.
 
@@ -286,6 +286,7 @@ Definition packUint (n : Z) (v : Z) (s : pst) : pres :=
 
 (* writeStr(maxLen, fixedLen): int(maxLen) wraps for maxLen >= 2^63 *)
 Definition p_write_str (maxLen : Z) (fixedLen : bool) (str : list Z) (s : pst) : perr + (pst * list Z) :=
+  if fixedLen && (maxint <? maxLen) then inl EResultTooLarge else
   let diff := if fixedLen then to_i64 maxLen - len str else 0 in
   if diff <? 0 then inl EStringLongerThanFormat
   else let out := str ++ zeros diff in inr (p_write s out, out).
@@ -399,15 +400,17 @@ Definition take (n : Z) (l : list Z) : list Z := firstn (Z.to_nat n) l.
 Definition u_skip (n : Z) (s : ust) (k : ust -> ures) : ures :=
   if n <=? len (u_rest s) then k (u_adv s n) else UFail EUnexpectedPackEnd.
 
-(* unpacker.align: no power-of-2 test here *)
+(* unpacker.align (round 6: the same power-of-2 test as pack and packsize) *)
 Definition u_align (n : Z) (s : ust) (k : ust -> ures) : ures :=
   let r := u_rd s in
   let go (s1 : ust) := if alignOnly r then UCont (u_set_rd s1 (clear_ao r)) else k s1 in
   if n =? 0 then go s
   else
     let n' := if maxAl r <? n then maxAl r else n in
-    let p := pad_to n' (u_j s) in
-    if p =? 0 then go s else u_skip p s go.
+    if negb (is_pow2 n') then UFail EBadAlignment
+    else
+      let p := pad_to n' (u_j s) in
+      if p =? 0 then go s else u_skip p s go.
 
 (* binary.Read of n bytes through io.ReadFull: EOF when nothing is left,
    ErrUnexpectedEOF (-> errUnexpectedPackEnd) when some but not enough *)
@@ -570,6 +573,11 @@ Definition unpack (fmt : list Z) (data : list Z) (j : Z) : uout :=
 Record sst := mkS { s_rd : rd; s_fmt : list Z; s_size : Z }.
 Inductive sres := SCont (s : sst) | SFail (e : perr).
 
+(* inc (round 6): the result must be a Lua integer, otherwise "format result too large";
+   so the size never wraps *)
+Definition s_inc (n : Z) (s : sst) : sres :=
+  if maxint - s_size s <? n then SFail EResultTooLarge
+  else SCont (mkS (s_rd s) (s_fmt s) (s_size s + n)).
 Definition s_align (n : Z) (s : sst) (k : sst -> sres) : sres :=
   let r := s_rd s in
   let go (s1 : sst) := if alignOnly r then SCont (mkS (clear_ao r) (s_fmt s1) (s_size s1)) else k s1 in
@@ -577,8 +585,10 @@ Definition s_align (n : Z) (s : sst) (k : sst -> sres) : sres :=
   else
     let n' := if maxAl r <? n then maxAl r else n in
     if negb (is_pow2 n') then SFail EBadAlignment
-    else go (mkS r (s_fmt s) ((s_size s + pad_to n' (s_size s)) mod W)).
-Definition s_inc (n : Z) (s : sst) : sres := SCont (mkS (s_rd s) (s_fmt s) ((s_size s + n) mod W)).
+    else
+      let p := pad_to n' (s_size s) in
+      if p =? 0 then go s
+      else match s_inc p s with SCont s1 => go s1 | SFail e => SFail e end.
 
 Definition size_opt (c : Z) (s : sst) : sres :=
   let r := s_rd s in
@@ -606,7 +616,15 @@ Definition size_opt (c : Z) (s : sst) : sres :=
       end)
   else if c =? 120 then s_align 0 s (s_inc 1)
   else if c =? 88 then SCont (mkS (set_ao r) (s_fmt s) (s_size s))
-  else if (c =? 115) || (c =? 122) then SFail EVariableLength
+  else if c =? 115 then
+    (* round 6: after X, s[n] only lends its alignment *)
+    if alignOnly r then
+      match smallOptSize 8 (s_fmt s) with
+      | (inl e, _) => SFail e
+      | (inr n, rest) => s_align n (mkS r rest (s_size s)) (fun _ => SFail EVariableLength)
+      end
+    else SFail EVariableLength
+  else if c =? 122 then SFail EVariableLength
   else SFail (EBadFormat c).
 
 Inductive sout := SOk (size : Z) | SErr (e : perr) | SOutOfFuel.
